@@ -416,20 +416,21 @@ func (dht *FullRT) runCrawler(ctx context.Context) {
 			newRt.Add(kadKey)
 		}
 
+		// Install the three parts of the crawl result together, taking the
+		// locks in the order readers take them (GetClosestPeers), so that no
+		// reader can see the trie of one crawl with the maps of another.
 		verifPoint("swap:begin")
+		dht.rtLk.Lock()
+		dht.kMapLk.Lock()
 		dht.peerAddrsLk.Lock()
 		dht.peerAddrs = peerAddrs
-		dht.peerAddrsLk.Unlock()
 		verifPoint("swap:addrs")
-
-		dht.kMapLk.Lock()
 		dht.keyToPeerMap = kPeerMap
-		dht.kMapLk.Unlock()
 		verifPoint("swap:kmap")
-
-		dht.rtLk.Lock()
 		dht.rt = newRt
 		dht.lastCrawlTime = time.Now()
+		dht.peerAddrsLk.Unlock()
+		dht.kMapLk.Unlock()
 		dht.rtLk.Unlock()
 		verifPoint("swap:end")
 	}
